@@ -4,7 +4,8 @@ PROP = {'rule': 'history / historyLong: rapid state machine that plays the sched
          'once-satisfied, declared by annotation, light-weight labels or PodGroup object), <=9 (long: <=14) pods. Every step runs one '
          'ENABLED rule: pod create/touch/delete at the API, in-order informer delivery with arbitrary lag, re-list (skipped versions), '
          'resync and tombstones, PodGroup add/update/delete, Permit (+AllowGangGroup on Success), reserve failure, AfterPostFilter, '
-         "permit timeout, Unreserve of rejected pods, bind ok / bind failure, PostBind, the framework's own reaction to a deleted pod. "
+         "permit timeout, Unreserve of rejected pods, bind ok / bind failure, PostBind, an error after the bind was persisted (Unreserve instead of PostBind, before or after the "
+         "informer delivered the node), the framework's own reaction to a deleted pod. "
          "non-trivial = in a group of >=2 gangs a Permit happens after a member's informer delete or roll-back "
          '(Unreserve/AfterPostFilter) that itself followed an earlier Permit of that group. pluginRelease: same idea through '
          'Coscheduling.Permit/Unreserve/AfterPostFilter/PostBind with captured informer handlers (one group of 1-3 gangs, <=8 pods, '
@@ -23,6 +24,9 @@ PROP = {'rule': 'history / historyLong: rapid state machine that plays the sched
                  'a deleted pod that the cache still counts (Permit/PostBind that raced with its informer delete) is counted by the model '
                  'too (tolerated, reported as a class), so the oracle is not stronger than what a race-free cache could know',
                  'terminated (Succeeded/Failed) pods never reach the handlers: the scheduler pod informer filters them',
+                 'Unreserve of a member the cache already knows as bound (error after the bind was persisted): the pod stays bound in '
+                 'the model; whether waiting members must then be rejected in strict mode is not decided by the statement, so it is '
+                 'not asserted (the code rejects them)',
                  'concurrent unit: PodGroup updates are not part of the racing informer script (opt-in VERIF_C04_PGRACE=1 shows the '
                  'unsynchronised read of gang.WaitTime in Permit; it cannot change a release decision)'],
  'units': [{'name': 'core',
